@@ -188,7 +188,7 @@ def run_coq_cases(imports, exprs, tag="cases", shard=120, timeout=900):
                         timeout=timeout + 10)
         if rc != 0:
             raise RuntimeError("coqc failed on %s:\n%s" % (p, out[-3000:]))
-        return re.findall(r'=\s*"((?:[^"]|"")*)"\s*:\s*string', out, re.S)
+        return re.findall(r'=\s*"((?:[^"]|"")*)"(?:%string)?\s*:\s*string', out, re.S)
 
     results = []
     with cf.ThreadPoolExecutor(NCPU) as ex:
